@@ -487,3 +487,27 @@ def run(repo: Repo, rep: Report, tier: str) -> None:
         ok12 = any(g in ALLOWED12 for g in pos)
         rep.check(ok12, "C14-R12", f"is_valid_factorio_signal: accepting return #{i + 1} is a table membership", (pos[-1] if pos else "")[:90] if ok12 else
                   f"accepted under `{' and '.join(pos) or 'no test'}`: names that merely look like signals (`signal-nonexistent`) pass analysis and fail, or silently vanish, later", vf.loc(r))
+
+    # ---------------- R13 --------------------------------------------------------------
+    rep.rule("C14-R13", "types are values: the analyzer never stores into an attribute of a type it obtained from inference or from a symbol (`infer_expr_type(...)`, "
+             "`get_expr_type(...)`, `<symbol>.value_type`) — the object is shared with the symbol table, so flagging it (e.g. as a comparison result) changes what every "
+             "later check sees for that variable; derived types are built as new objects")
+    an13 = repo.cls("SemanticAnalyzer")
+    TYPE_SOURCES13 = ("infer_expr_type(", "get_expr_type(", ".value_type", "infer_binary_op_type(", "infer_unary_op_type(")
+    n13 = 0
+    for m13 in an13.methods.values():
+        c13_ = None
+        for n in walk_local(m13.node):
+            tg13 = n.targets if isinstance(n, ast.Assign) else ([n.target] if isinstance(n, (ast.AugAssign, ast.AnnAssign)) else [])
+            for t in tg13:
+                if isinstance(t, ast.Attribute) and isinstance(t.value, ast.Name) and t.value.id != "self":
+                    c13_ = c13_ or _canon(m13)
+                    alts13 = c13_.alts(t.value)
+                    n13 += 1
+                    shared = [a for a in alts13 if any(src in a for src in TYPE_SOURCES13) and not re.match(r"^[A-Z][a-z]\w*\(", a)]
+                    if shared:
+                        rep.bad("C14-R13", f"{m13.short}: store into `.{t.attr}` of an inferred type", f"the object comes from `{shared[0][:90]}` and is shared with the symbol it was read from: "
+                                "after `Signal big = x > 5;` the variable x itself counts as a comparison, and `x : 100` is accepted", m13.loc(n))
+    rep.floor("C14-R13", "attribute stores on non-self objects in the analyzer", n13, 5)
+    if not any(o.rule == "C14-R13" and o.status == "violated" for o in rep.obs):
+        rep.ok("C14-R13", "no inferred type is mutated in place", f"{n13} attribute stores on non-self objects, none on a type value", an13.loc())
